@@ -75,7 +75,9 @@ func drawString(t *simhook.Tape) string {
 }
 
 func drawBytes(t *simhook.Tape) []byte {
-	switch t.Draw("bytes", 6) {
+	switch t.Draw("bytes", 7) {
+	case 6:
+		return []byte{} // the zero value: legal in oneof members, list elements and map values
 	case 0:
 		return []byte{1}
 	case 1:
